@@ -1,23 +1,66 @@
-(** * C17  The search is directed (provable part): selection never prefers a worse rank when the
-    pressure is 1, every selection stays in range, and mutation with probability 1 changes every
-    discrete parameter.  The benchmark battery and "within a few attempts" are tests
-    (tested_not_proved in the evidence). *)
+(** * C17  The search is directed (provable part): selection favours better ranks — the
+    probability of picking rank i never increases with i, for every pressure in [0,1] and every
+    list length (distribution model [Selection.sel_dist] of [select_ref]'s loop); mutation with
+    probability 1 changes every discrete parameter.  The benchmark battery and "within a few
+    attempts" are tests (tested_not_proved in the evidence). *)
 From Coq Require Import String.
-From Coq Require Import List ZArith NArith Bool.
-From Cambrian Require Import Base.F64 SourceFacts Syntax Ops OpsProofs.
+From Coq Require Import List ZArith NArith Bool QArith.
+From Cambrian Require Import Base.F64 SourceFacts Syntax Ops OpsProofs Selection.
 Import ListNotations.
+
+(** [select_ref] is the loop [Selection.walk] models (regenerated from the source) *)
+Example select_ref_shape : select_ref_is_bernoulli_walk_then_uniform = true.  Proof. reflexivity. Qed.
+
+(** the selection distribution over ranks 0..n-1 at pressure p: a probability distribution ... *)
+Theorem selection_is_a_distribution :
+  forall p n, (1 <= n)%nat -> (0 <= p)%Q -> (p <= 1)%Q ->
+    length (sel_dist p n) = n /\ (qsum (sel_dist p n) == 1)%Q /\
+    (forall i, (i < n)%nat -> (0 <= nth i (sel_dist p n) 0)%Q).
+Proof.
+  intros p n Hn H0 H1. split; [apply sel_dist_length|]. split; [apply sel_dist_sums_to_one; exact Hn|].
+  intros i Hi. apply sel_dist_nonneg; assumption.
+Qed.
+Print Assumptions selection_is_a_distribution.
+
+(** ... in which a worse rank is never more likely than a better one, and strictly less likely
+    when the pressure is strictly between 0 and 1 *)
+Theorem selection_favours_better_ranks :
+  forall p n i j, (0 <= p)%Q -> (p <= 1)%Q -> (i <= j)%nat -> (j < n)%nat ->
+    (nth j (sel_dist p n) 0 <= nth i (sel_dist p n) 0)%Q.
+Proof. exact sel_dist_monotone. Qed.
+Print Assumptions selection_favours_better_ranks.
+
+Theorem selection_strictly_favours_better_ranks :
+  forall p n i j, (0 < p)%Q -> (p < 1)%Q -> (i < j)%nat -> (j < n)%nat ->
+    (nth j (sel_dist p n) 0 < nth i (sel_dist p n) 0)%Q.
+Proof. exact sel_dist_strict. Qed.
+Print Assumptions selection_strictly_favours_better_ranks.
+
+Theorem selection_at_the_end_points :
+  forall n, (1 <= n)%nat ->
+    (nth 0 (sel_dist 1 n) 0 == 1)%Q /\ (forall i, (i < n)%nat -> (nth i (sel_dist 0 n) 0 == 1 / nq n)%Q).
+Proof. intros n Hn. split; [apply sel_dist_pressure_one; exact Hn | intros i Hi; apply sel_dist_pressure_zero; exact Hi]. Qed.
+Print Assumptions selection_at_the_end_points.
+
+Example sel_dist_half_two : map Qred (sel_dist (1#2) 2) = [5#8; 3#8]%Q.
+Proof. vm_compute. reflexivity. Qed.
 
 Theorem p1_changes_discrete :
   forall ms p c c',
     (forall i b b', mut_check fone ms (SBool i) p c (VBool b) (VBool b') = Some c' -> b' = negb b) /\
     (forall vs i a b, mut_check fone ms (SEnum vs i) p c (VEnum a) (VEnum b) = Some c' -> b <> a /\ mem_s b vs = true) /\
     (forall vt isz mn mx m m', mut_check fone ms (SAnonMap vt isz mn mx) p c (VAnonMap m) (VAnonMap m') = Some c' ->
-        (exists k, added m m' = [k] /\ removed m m' = []) \/ (exists k, added m m' = [] /\ removed m m' = [k])).
+        (exists k, added m m' = [k] /\ removed m m' = []) \/ (exists k, added m m' = [] /\ removed m m' = [k])) /\
+    (forall os i n x n' y, mut_check fone ms (SVariant os i) p c (VVariant n x) (VVariant n' y) = Some c' -> n' <> n) /\
+    (forall vt b o o', mut_check fone ms (SOptional vt b) p c (VOptional o) (VOptional o') = Some c' ->
+        (o = None /\ o' <> None) \/ (o <> None /\ o' = None)).
 Proof.
-  intros. split; [|split]; intros.
+  intros. split; [|split; [|split; [|split]]]; intros.
   - eapply p1_bool; eauto.
   - eapply p1_enum; eauto.
   - eapply p1_resizes; eauto.
+  - eapply p1_variant; eauto.
+  - eapply p1_optional; eauto.
 Qed.
 Print Assumptions p1_changes_discrete.
 
